@@ -356,6 +356,32 @@ func runC05(c *Ctx) {
 			}
 			if len(mv) == 0 {
 				bad = "no message lifetime is defined for " + cl.name
+				if cl.name == "other-rcode" {
+					// `default: return false`: the other rcodes leave before any lifetime is computed
+					for _, r := range returnsOf(save) {
+						rv := returnedValues(r)
+						if len(rv) != 1 {
+							continue
+						}
+						if b, isC := constBool(rv[0]); !isC || b {
+							continue
+						}
+						ne := map[int64]bool{}
+						for _, g := range guardsOfInstr(r) {
+							if cm, ok := g.asCmp(); ok && cm.Op == token.NEQ {
+								if k, isF := loadedField(cm.X); isF && strings.HasSuffix(k, "dns.MsgHdr.Rcode") {
+									if n, isK := constInt(cm.Y); isK {
+										ne[n] = true
+									}
+								}
+							}
+						}
+						if ne[0] && ne[2] && ne[3] {
+							bad = ""
+							mv = append(mv, rv[0])
+						}
+					}
+				}
 			}
 			for _, lf := range cacheLeaves {
 				if !compatible(cl, lf.guards) {
@@ -895,6 +921,77 @@ func runC05(c *Ctx) {
 				touchesAll[fieldTail(k)] = true
 			}
 		})
+		// callback form: the loop lives in a NEW iteration helper and the minimum is kept in a captured variable:
+		// `each(m, func(hdr) { if hdr.Ttl < minTTL { minTTL = hdr.Ttl } })`
+		if !minOK {
+			for _, cl := range gm.AnonFuncs {
+				if len(cl.Params) != 1 {
+					continue
+				}
+				okG, helper := headerCallbackGuarded(cl, cl.Params[0])
+				if helper == nil || !okG {
+					continue
+				}
+				// the helper visits all three sections and skips nothing but OPT
+				eachInstr(helper, func(in ssa.Instruction) {
+					if fa, ok := in.(*ssa.FieldAddr); ok {
+						k, _ := fieldKey(fa)
+						touchesAll[fieldTail(k)] = true
+					}
+					ci, ok := in.(*ssa.Call)
+					if !ok || ci.Call.IsInvoke() {
+						return
+					}
+					if _, isP := ci.Call.Value.(*ssa.Parameter); !isP {
+						return
+					}
+					optEdge := func(iff *ssa.If, truth bool) bool {
+						gd := guard{Cond: iff.Cond, Truth: truth, If: iff}
+						if cm, ok := gd.asCmp(); ok && cm.Op == token.EQL {
+							if k, _ := loadedField(cm.X); k == "github.com/miekg/dns.RR_Header.Rrtype" {
+								if n, ok := constInt(cm.Y); ok && n == 41 {
+									return true
+								}
+							}
+						}
+						return false
+					}
+					if sk, _ := iterationCanSkip(in, optEdge); sk {
+						extraGuard = "the iteration helper skips some non-OPT record"
+					}
+				})
+				optOK = true
+				// in the closure: every store of a header TTL into a captured uint32 cell is guarded by "smaller than the
+				// cell's current value", and by nothing else
+				eachInstr(cl, func(in ssa.Instruction) {
+					st, ok := in.(*ssa.Store)
+					if !ok {
+						return
+					}
+					k, isTtl := loadedField(st.Val)
+					if !isTtl || k != "github.com/miekg/dns.RR_Header.Ttl" {
+						return
+					}
+					if _, isFV := st.Addr.(*ssa.FreeVar); !isFV {
+						return
+					}
+					smaller := false
+					for _, g := range guardsOfInstr(in) {
+						cm, ok := g.asCmp()
+						if ok && cm.Op == token.LSS && sameLoadedPlace(cm.X, st.Val) {
+							if ld, isLd := cm.Y.(*ssa.UnOp); isLd && ld.Op == token.MUL && ld.X == st.Addr {
+								smaller = true
+								continue
+							}
+						}
+						extraGuard = guardText(g)
+					}
+					if smaller {
+						minOK = true
+					}
+				})
+			}
+		}
 		c.check(minOK && optOK && extraGuard == "" && touchesAll["Answer"] && touchesAll["Ns"] && touchesAll["Extra"], "minimal-ttl", gm.Pos(),
 			"minimum over answer, authority and additional records, OPT excluded, no record skipped",
 			fmt.Sprintf("GetMinimalTTL is not the minimum over all non-OPT records of all three sections (replace-if-smaller: %v, OPT skipped: %v, sections: %v, extra condition: %q): e.g. zero-TTL records are skipped and a zero-TTL reply is stored", minOK, optOK, touchesAll, extraGuard))
